@@ -46,6 +46,16 @@ def gen_table(rng, family, base):
                 k = rng.choice([k for k in K if k != "?"])
                 del K[k]
         return K
+    if family == "zeros":      # index-alphabet atoms (always in the robust alphabet) with capacity 0 or 1
+        K = dict(base) if rng.random() < 0.6 else {"C": 4, "N": 3, "O": 2, "S": 6, "P": 5, "F": 1, "?": rng.randint(0, 8)}
+        for k in rng.sample(("C", "N", "O", "S", "P", "?"), rng.randint(1, 3)):
+            if rng.random() < 0.5 and k != "?" and k in K:
+                del K[k]
+                K["?"] = rng.choice((0, 0, 1))
+            else:
+                K[k] = rng.choice((0, 0, 1))
+        K.setdefault("?", rng.randint(0, 8))
+        return K
     if family == "small":
         K = {}
         for _ in range(rng.randint(1, 6)):
@@ -413,7 +423,8 @@ def gen_history(rng, prop, tier="quick"):
         cfg["length"] = rng.choice((80, 120, 200))      # deeper bound of the thorough tier
     cfg["families"] = rng.choice((("preset",), ("preset", "tweak"), ("tweak", "small"),
                                   ("preset", "tweak", "small", "large"), ("charges", "tweak"),
-                                  ("preset", "tweak", "small", "large", "charges")))
+                                  ("preset", "tweak", "small", "large", "charges"), ("zeros", "tweak"),
+                                  ("zeros", "small", "preset")))
     cfg["passive"] = rng.random() < 0.5        # cheap get()/presets snapshot after every op
     cfg["start_default_call"] = rng.random() < 0.25
     off = []
@@ -593,7 +604,10 @@ class _GenState:
             x = gen_selfies(rng, self.ctx(), rng.choice(("plain", "novel", "multi")))
             yield {"op": "util", "fn": rng.choice(("split", "len", "alphabet_from", "to_encoding", "flat_hot")), "x": x}
         elif kind == "alpha_decode":
-            yield {"op": "alpha_decode", "seed": rng.getrandbits(30),
+            low = sorted("[%s]" % k for k, v in self.cur.items() if k != "?" and v <= 1)
+            if self.cur.get("?", 1) <= 1:
+                low += [x for x in ("[N]", "[O]", "[S]", "[P]", "[C]", "[=N]", "[=C]") if x[1:-1].lstrip("=") not in self.cur]
+            yield {"op": "alpha_decode", "seed": rng.getrandbits(30), "low": low[:12],
                    "count": rng.choice((4, 8, 16, 30)),
                    "maxlen": rng.choice((5, 20, 60, 200) if self.cfg["tier"] == "quick" else (5, 20, 60, 200, 500, 1000))}
 
